@@ -18,7 +18,14 @@ pub mod c39;
 pub mod c41;
 pub mod c42;
 pub mod cfgdiff;
+pub mod cache;
+pub mod cliout;
 pub mod dist;
+pub mod front;
+pub mod fuzz;
+pub mod iceberg;
+pub mod meta;
+pub mod scalar;
 pub mod sem;
 pub mod shapes;
 pub mod storage;
@@ -43,7 +50,10 @@ fn table() -> Vec<(&'static str, CheckFn)> {
         ("C14", c11::run_c14),
         ("C15", c15::run),
         ("C16", c16::run),
+        ("C17", iceberg::run_c17),
         ("C18", storage::run_c18),
+        ("C19", cache::run_c19),
+        ("C20", cache::run_c20),
         ("C21", sem::run_c21),
         ("C22", sem::run_c22),
         ("C23", sem::run_c23),
@@ -52,11 +62,18 @@ fn table() -> Vec<(&'static str, CheckFn)> {
         ("C26", sem::run_c26),
         ("C27", sem::run_c27),
         ("C28", sem::run_c28),
+        ("C29", fuzz::run_c29),
+        ("C30", meta::run_c30),
         ("C31", c03::run_c31),
+        ("C32", meta::run_c32),
         ("C33", c33::run),
+        ("C34", front::run_c34),
+        ("C35", front::run_c35),
+        ("C36", scalar::run_c36),
         ("C37", c37::run),
         ("C38", c38::run),
         ("C39", c39::run),
+        ("C40", cliout::run_c40),
         ("C41", c41::run),
         ("C42", c42::run),
         ("C43", c38::run_c43),
@@ -88,6 +105,9 @@ pub fn worker(args: &[String]) -> i32 {
     let nshards: usize = args.get(4).and_then(|s| s.parse().ok()).unwrap_or(1);
     match check {
         "C06" | "C07" => cfgdiff::worker(check, tier, seed, shard, nshards),
+        "C19" => cache::worker_c19(tier, seed, shard, nshards),
+        "C20" => cache::worker_c20(tier, seed, shard, nshards, args.get(5..).unwrap_or(&[])),
+        "C29" => fuzz::worker(tier, seed, shard, nshards, args.get(5..).unwrap_or(&[])),
         _ => {
             eprintln!("no worker for {}", check);
             2
